@@ -95,6 +95,15 @@ CHECKS = {
          "points and cells; TLC validates RefSizeIsPtCount, PointEqualsCell, CellHoldsData, ColumnLetters (RefsAsSpec drift only).",
     note="Trusted: TLC, the zipfile+lxml xlsx reader. Numbers compared as canonical decimal text. 1900 date system only.",
     technique="TLA+ function spec, whole-domain TLC theorems, spec->code->spec conformance validated by TLC"),
+ "C09": dict(
+    category="exploration", design_ref="DESIGN.md §4 C09",
+    text="Props.tla: catalogue-driven value-class generator, abstract machine and named clauses (InDomainAccepted, ReadBackWithinQuantum, "
+         "NoneRestoresInheritance, OutOfDomainRefused, RefusalClass, OthersUnchanged, ReopenSame). MC_Props enumerates per object kind "
+         "(44/47 kinds, 184/202 properties; 0 of 141 introspected settable sites uncatalogued) every sequence of 1, 2 and 3 assignments "
+         "over boundary, interior, rounding-threshold, None and out-of-domain classes, then save/re-open. Each is replayed on fresh "
+         "objects, single assignments also on corpus objects; TLC evaluates every clause on every observed step.",
+    note="TLC does not compute with values: |read - assigned| <= quantum is a Fraction monitor logged as a boolean that TLC requires. Domains, coupling and None-support are the catalogue's reading of the docstrings; undocumented bounds and frame-on-refusal are reported, not judged.",
+    technique="TLC-enumerated assignment sequences over anchored value tokens, replayed through the public API, TLC trace validation"),
  "C10": dict(
     category="model_checking", design_ref="DESIGN.md §4 C10",
     text="ChildOrder.tla: Impl layer transcribes xmlchemy (first_child_found_in, insert_element_before, remove_all, get-or-add, change-to); "
